@@ -67,7 +67,12 @@ VSOrd(ev) ==
 (* ["biotype", a, b, sameValue] *)
 VBiotype(ev) == Ok(ev[4] = SameBiotype(ev[2], ev[3]), "biotype-synonyms")
 
-Verdict(ev) == CASE ev[1] = "codon" -> VCodon(ev) [] ev[1] = "gencode" -> VGencode(ev) [] ev[1] = "ext" -> VExt(ev)
+(* ["isnt", alphabet, is_nucleotide_alphabet(), outcome of reverse-complementing "A" in it] : the nucleotide alphabets are
+   exactly the five NT_ alphabets; a sequence over any other alphabet refuses to be complemented with a documented error *)
+VIsNt(ev) == IF ev[3] # (ev[2] \in NtAlphabets) THEN "nucleotide-alphabets"
+             ELSE IF ev[2] \in NtAlphabets THEN Ok(ev[4] = "v", "nucleotide-alphabets:complementable")
+             ELSE Ok(ev[4] \in {"AlphabetError", "ValueError", "BioCantorException"}, "nucleotide-alphabets:others-refused")
+Verdict(ev) == CASE ev[1] = "isnt" -> VIsNt(ev) [] ev[1] = "codon" -> VCodon(ev) [] ev[1] = "gencode" -> VGencode(ev) [] ev[1] = "ext" -> VExt(ev)
                  [] ev[1] = "aacodons" -> VAaCodons(ev) [] ev[1] = "starts" -> VStarts(ev)
                  [] ev[1] = "comp" -> VComp(ev) [] ev[1] = "complen" -> VCompLen(ev)
                  [] ev[1] = "shift" -> VShift(ev) [] ev[1] = "f2p" -> VF2P(ev) [] ev[1] = "p2f" -> VP2F(ev)
